@@ -84,7 +84,7 @@ def main():
         with open(a.replay) as f:
             replay_only = json.load(f)
 
-    known = [k for k in load_known() if k.get("property") == pid]
+    known = [k for k in load_known() if k.get("property") == pid or pid in (k.get("also") or [])]
     obligations = []     # dicts: id, tool, status(discharged|failed|undecided), detail
     violations = []      # dicts: obligation, kind, text, replay
     undecided = []
@@ -200,6 +200,18 @@ def main():
 
     # ---------------------------------------------------------------- Kani harness groups
     kani_groups = cfg.get("kani", [])
+    if os.environ.get("VP_DEV_SKIP_KANI"):
+        kani_groups = []
+    rp = cfg.get("replays", [])
+    if os.environ.get("VP_DEV_SKIP_REPLAYS"):
+        rp = []
+    rp = [r_ for r_ in rp if tier == "thorough" or r_.get("tier", "thorough") == "quick"]
+    replay_future = None
+    pool = None
+    if rp:
+        import concurrent.futures
+        pool = concurrent.futures.ThreadPoolExecutor(max_workers=1)
+        replay_future = pool.submit(replay_run.run_replays, rp, pid)
     if kani_groups:
         kr = kani_run.run_groups(kani_groups, pid, tier)
         checker_cmds += kr["cmds"]
@@ -233,9 +245,9 @@ def main():
 
     # ---------------------------------------------------------------- concrete replays of findings (fixed / open)
     replay_results = []
-    rp = cfg.get("replays", [])
-    if rp and (tier == "thorough" or cfg.get("replays_in_quick", True)):
-        rr = replay_run.run_replays(rp, pid)
+    if replay_future is not None:
+        rr = replay_future.result()
+        pool.shutdown()
         replay_results = rr["results"]
         checker_cmds += rr["cmds"]
 
